@@ -67,6 +67,21 @@ pub fn mk_public_input(cells: &[(Felt, Felt)], headers: Vec<ContinuousPageHeader
     }
 }
 
+/// accept both the original signature (-> Felt) and the repaired one (-> Result<Felt, _>)
+pub trait IntoFeltResult {
+    fn into_res(self) -> Result<Felt, String>;
+}
+impl IntoFeltResult for Felt {
+    fn into_res(self) -> Result<Felt, String> {
+        Ok(self)
+    }
+}
+impl<E: std::fmt::Debug> IntoFeltResult for Result<Felt, E> {
+    fn into_res(self) -> Result<Felt, String> {
+        self.map_err(|e| format!("{:?}", e))
+    }
+}
+
 fn check_memory(cells: u32, headers: &[u8], pad: u64, big_column: bool, seed: u64) -> Outcome {
     let f = fp(&(cells, headers, pad, big_column, seed));
     let z = prf_felt(seed, 1);
@@ -104,9 +119,10 @@ fn check_memory(cells: u32, headers: &[u8], pad: u64, big_column: bool, seed: u6
         if big_column { "+big_column" } else { "" }
     );
     let nontrivial = column > total || !hs.is_empty();
-    match guarded(false, || pi.get_public_memory_product_ratio(z, alpha, Felt::from(column))) {
+    match guarded(false, || pi.get_public_memory_product_ratio(z, alpha, Felt::from(column)).into_res()) {
         Err(p) => Outcome::failed(class, f, p.signature(), p.describe()),
-        Ok(v) => {
+        Ok(Err(e)) => Outcome::failed(class, f, "c15:public_memory_ratio_error", format!("product ratio of a well-formed public memory returned {}", e)),
+        Ok(Ok(v)) => {
             if v == expect {
                 Outcome::pass(class, nontrivial, f)
             } else {
